@@ -9,7 +9,7 @@ import props.C06 as C06
 RULE = ('grammar scripts x {strip_whitespace, use_space_around_operators, reindent with every sub-option combination (thorough) / sampled (quick)}; the stated normal form is checked on the output text and by re-lexing; '
         'the first two outputs are formatted again (fixed point); non-trivial = distinct (script, option set)')
 ASSUMPTIONS = ['re-lexing by the real lexer decides what is a comment/literal/operator in the output']
-PARTIAL = ['tree-level normal forms and the spaces fixed point are theorems; the reindent clause (clause keywords at line start) and the text-level reading of the normal forms are oracle-checked; known findings KF-C10-2..4']
+PARTIAL = ['tree-level normal forms, the spaces fixed point, the IdentifierList fixed point criterion (KF-C10-3 = its counterexample) and the reindent clause for every list _process_default handles (clause keyword directly preceded by the nl() token, hypothesis noBreakBefore) are theorems; the lift of the reindent clause through _process_identifierlist/_case/_parenthesis and through the serializer regex, and the text-level reading of the normal forms, are oracle-checked; known findings KF-C10-2..4']
 CLAUSE_KW = {'FROM', 'WHERE', 'GROUP BY', 'ORDER BY', 'HAVING', 'LIMIT', 'UNION', 'UNION ALL', 'EXCEPT', 'SET', 'AND', 'OR'}
 
 
